@@ -79,10 +79,12 @@ func NewWriterLevel(w io.Writer, level, wc int) (*Writer, error) {
 	bg.wg.Add(1)
 	go func() {
 		defer bg.wg.Done()
+		// Keep draining the queue after a failure so that every
+		// queued compressor is returned to the waiting pool and
+		// every pending write is accounted for; otherwise Close
+		// and Wait block forever.
 		for qw := range bg.queue {
-			if !writeOK(bg, <-qw.flush) {
-				break
-			}
+			writeOK(bg, <-qw.flush)
 		}
 	}()
 
@@ -91,9 +93,15 @@ func NewWriterLevel(w io.Writer, level, wc int) (*Writer, error) {
 
 func writeOK(bg *Writer, c *compressor) bool {
 	defer func() { bg.waiting <- c }()
+	defer bg.qwg.Done()
 
 	if c.err != nil {
 		bg.setErr(c.err)
+		return false
+	}
+	if bg.Error() != nil {
+		// Do not write blocks after a failed write.
+		c.buf.Reset()
 		return false
 	}
 	if c.buf.Len() == 0 {
@@ -101,7 +109,6 @@ func writeOK(bg *Writer, c *compressor) bool {
 	}
 
 	_, err := io.Copy(bg.w, &c.buf)
-	bg.qwg.Done()
 	if err != nil {
 		bg.setErr(err)
 		return false
